@@ -21,19 +21,26 @@ def leavesL : List Tree → List Nat
 end
 
 /-- tokens the protocol swallows by design: closers (`\end{..}`, `}`), `\setcounter` at the head of a list -/
-def dropShape (it : Item) : Bool := it.elem && (it.modeEnd || it.egroup || it.setctr)
+def dropShape (it : Item) : Bool := it.setctr || (it.elem && (it.modeEnd || it.egroup))
 /-- `digest` leaves such an item untouched -/
 def inert (it : Item) : Bool := it.dk == .none || (it.modeEnd && (it.dk == .env || it.dk == .listEnv))
 
+/-- per-item part of the stream hypothesis:
+    text has no absorbing digest and blank text carries no word; a `par`-like class (blank while empty)
+    has no arguments; a paragraph-level item is an element without arguments, with `Macro.digest`, and is
+    not a closer; swallowed tokens have an inert digest -/
+def itemOK (it : Item) : Bool :=
+  (it.elem || (inert it && (!it.ws || it.src.isEmpty))) &&
+  (!it.dynws || it.argLeaves.isEmpty) &&
+  (!(it.level == parLevel) || (it.argLeaves.isEmpty && it.elem && it.dk == .none && !dropShape it)) &&
+  (!dropShape it || inert it)
+
 mutual
-/-- hypothesis on streams: blanks and swallowed tokens carry no words; paragraph tokens and
-    swallowed tokens have no absorbing `digest`; paragraph tokens have no arguments -/
+/-- hypothesis on streams (decidable; evaluated by the driver on every recorded stream): every node
+    satisfies `itemOK`, text nodes have no children, swallowed tokens carry no words -/
 def clean : Tree → Bool
-  | .node it p kids =>
-    ((Tree.node it p kids).ws → leaves (.node it p kids) = []) &&
-    (dropShape it → (leaves (.node it p kids) = [] ∧ inert it)) &&
-    (it.level = parLevel → (it.argLeaves = [] ∧ it.elem = true ∧ inert it)) &&
-    cleanL kids
+  | .node it _ kids =>
+    itemOK it && (it.elem || kids.isEmpty) && (!dropShape it || (own it ++ leavesL kids).isEmpty) && cleanL kids
 def cleanL : List Tree → Bool
   | [] => true
   | k :: ks => clean k && cleanL ks
@@ -86,4 +93,18 @@ def allCharsL : List Tree → List Nat
   | [] => []
   | k :: ks => allChars k ++ allCharsL ks
 end
+end PlasVerif.Spec.DocTree
+
+namespace PlasVerif.Spec.DocTree
+open PlasVerif.Model.Digest PlasVerif.Generated.Digest
+/-- "sectioning skeleton" streams (hypothesis of `sections_nest`): below paragraph level there are only
+    fresh sectioning commands (levels strictly between DOCUMENT and ENDSECTIONS, `SectionUtils.digest`) and
+    inert document-level closers; everything at or above paragraph level has an inert digest
+    (text, paragraph tokens, commands whose arguments were parsed at expansion time). -/
+def secSkel (x : Tree) : Bool :=
+  if x.it.level < parLevel then
+    (x.it.dk == .sec && x.it.elem && x.kids.isEmpty && decide (documentLevel < x.it.level) &&
+      decide (x.it.level < endSectionsLevel)) ||
+    (inert x.it && decide (x.it.level ≤ documentLevel))
+  else inert x.it
 end PlasVerif.Spec.DocTree
